@@ -269,6 +269,11 @@ func init() {
 		return nil
 	})
 	reg("vrt.QlzBoth", func(fr *frame, args []value) value { fr.i.qlzBoth = true; return nil })
+	reg("vrt.KnownMemError", func(fr *frame, args []value) value {
+		fr.i.ctx.knownMemID, fr.i.ctx.knownMemPat = toString(args[0]), toString(args[1])
+		return nil
+	})
+	reg("vrt.QlzReal", func(fr *frame, args []value) value { fr.i.qlzReal = true; return nil })
 	reg("vrt.Drain", func(fr *frame, args []value) value { fr.i.sched.drain(); return nil })
 	reg("vrt.Yield", func(fr *frame, args []value) value { fr.i.sched.yield(args[0].(string)); return nil })
 	reg("vrt.DeadlockIsViolation", func(fr *frame, args []value) value { fr.i.sched.deadlockIsViolation = true; return nil })
